@@ -198,7 +198,12 @@ func c14Body(c *ev.Ctx) {
 	c.Set("states", totalStates)
 	c.Set("transitions", totalTrans)
 	c.Set("executions", totalExecs)
-	c.Set("traces_validated_against_impl", totalExecs)
+	conf := int64(0)
+	if c.NViolations() == 0 {
+		conf = c14Conformance(c)
+	}
+	c.Set("traces_validated_against_impl", conf)
+	c.Set("executions_of_real_instrumented_code", totalExecs)
 	c.Set("distinct_outcomes", int64(len(outcomes)))
 	c.Set("outcome_samples", ok)
 	c.Set("scenarios", per)
@@ -206,7 +211,7 @@ func c14Body(c *ev.Ctx) {
 	c.Set("preemption_bounds", "0,1 (statement-level points), 2 and unbounded (shared-object operations, state-key pruning)")
 	c.Sample(scenarios[1])
 	c.Set("rule", "every interleaving of the statement-level steps of server/job.go and server/server.go (instrumented from the working tree) with a model of net/http.Server, for a driver doing Run; RequestStop; AwaitStop; (bind check) x 0..2 clients x 1..2 start/stop cycles; executions are real runs of the repository code under a cooperative scheduler; states = (per-thread local history digests, channel/model-server/model-network state); an execution is cut when it reaches an explored state")
-	c.Assume("net/http.Server is modelled (vhttp), its steps mirror go1.23 server.go; the model is validated against the real server by the conformance scenarios of C14's e2e part")
+	c.Assume("net/http.Server is modelled (vhttp), its steps mirror go1.23 server.go; the model's observable behaviour is compared with the real server on 7 scripted scenarios per run (traces_validated_against_impl counts matched observations), the window being forced with net/http's own testHookServerServe")
 	c.Assume("interleavings inside uninstrumented libraries are atomic steps; memory-model effects are outside the scheduler's model")
 }
 
